@@ -401,6 +401,13 @@ def SetMinus(a, b):
 def SetSubset(a, b): return T('set.subset', (a, b), BOOL)
 
 
+def SetFilter(base, bound, body):
+    """{ x in base | body(x) } ; bound is a Var term occurring in body"""
+    if is_true(body):
+        return base
+    return T('set.filter', (base, body), base.sort, (bound.data, bound.sort))
+
+
 def SetCard(s):
     if s.op == 'set.empty':
         return IntC(0)
@@ -444,7 +451,7 @@ def Exists(bound, body):
 
 
 def fresh_bound(prefix, sort):
-    return Var('%s!%d' % (prefix, next(_qid)), sort)
+    return Var('%s_%d' % (prefix, next(_qid)), sort)
 
 
 # ---------------------------------------------------------------- traversal
@@ -501,6 +508,10 @@ def collect(t, decls, sorts):
                 _collect_sort(s, sorts)
             stack.append((x.args[0], b2))
             continue
+        elif x.op == 'set.filter':
+            stack.append((x.args[0], bound))
+            stack.append((x.args[1], bound | frozenset([x.data[0]])))
+            continue
         for a in x.args:
             stack.append((a, bound))
 
@@ -512,6 +523,22 @@ def _collect_sort(s, sorts):
         _, parts = sort_args(s)
         for p in parts:
             _collect_sort(p, sorts)
+
+
+def _find_cards(t, out):
+    stack = [t]
+    seen = set()
+    while stack:
+        x = stack.pop()
+        if id(x) in seen:
+            continue
+        seen.add(id(x))
+        if x.op in ('forall', 'exists', 'set.filter'):
+            # cardinalities under binders are not axiomatised (stay uninterpreted)
+            pass
+        if x.op == 'set.card':
+            out.setdefault(x.args[0].key(), x.args[0])
+        stack.extend(x.args)
 
 
 def uses_op(t, ops):
@@ -597,6 +624,14 @@ def to_smt(t, dialect='cvc5'):
 
 def _set_smt(t, a, dialect):
     op = t.op
+    if op == 'set.filter':
+        n, srt = t.data
+        if dialect == 'cvc5':
+            return '(set.filter (lambda ((%s %s)) %s) %s)' % (qname(n), sort_smt(srt, dialect), a[1], a[0])
+        return '(lambda ((%s %s)) (and (select %s %s) %s))' % (qname(n), sort_smt(srt, dialect), a[0],
+                                                              qname(n), a[1])
+    if op == 'set.card' and dialect == 'z3':
+        return '(|card!%s| %s)' % (sort_smt(t.args[0].sort, dialect), a[0])
     if dialect == 'cvc5':
         if op == 'set.empty':
             return '(as set.empty %s)' % sort_smt(t.sort, dialect)
@@ -623,7 +658,59 @@ def _set_smt(t, a, dialect):
     raise Unsupported('z3 dialect: ' + op)
 
 
+def _free_bound(t, bound_names):
+    """does t mention any of the given bound variable names freely?"""
+    stack = [t]
+    while stack:
+        x = stack.pop()
+        if x.op == 'var' and x.data in bound_names:
+            return True
+        stack.extend(x.args)
+    return False
+
+
+def lower_filters(terms):
+    """Replace closed set-builder terms {x in S | P(x)} by fresh set constants defined by a
+    universally quantified membership axiom (friendlier to the solvers than lambdas)."""
+    table = {}
+    axioms = []
+
+    def rec(t, bound):
+        if not t.args:
+            return t
+        if t.op in ('forall', 'exists'):
+            b2 = bound | {n for n, _ in t.data}
+            return T(t.op, (rec(t.args[0], b2),), t.sort, t.data)
+        if t.op == 'set.filter':
+            n, srt = t.data
+            base = rec(t.args[0], bound)
+            body = rec(t.args[1], bound | {n})
+            new = T('set.filter', (base, body), t.sort, t.data)
+            if bound and (_free_bound(base, bound) or _free_bound(body, bound - {n})):
+                return new          # depends on an enclosing binder: keep as a set-builder term
+            k = new.key()
+            if k not in table:
+                v = Var('flt!%d' % len(table), t.sort)
+                table[k] = v
+                x = Var(n, srt)
+                axioms.append(ForAll([x], Eq(T('set.member', (x, v), BOOL),
+                                             And(T('set.member', (x, base), BOOL), body))))
+            return table[k]
+        new_args = [rec(a, bound) for a in t.args]
+        if all(a is b for a, b in zip(new_args, t.args)):
+            return t
+        return T(t.op, new_args, t.sort, t.data)
+    out = [rec(t, frozenset()) for t in terms]
+    return out, axioms
+
+
 def script(assertions, dialect='cvc5', outputs=None, logic=None, produce_models=False):
+    if any(uses_op(t, {'set.filter'}) for t in list(assertions) + list((outputs or {}).values())):
+        names = list((outputs or {}).keys())
+        lowered, axioms = lower_filters(list(assertions) + [outputs[n] for n in names])
+        assertions = axioms + lowered[:len(lowered) - len(names)]
+        if names:
+            outputs = dict(zip(names, lowered[len(lowered) - len(names):]))
     """Render a list of Bool terms as a complete SMT-LIB script (check-sat at
     the end).  outputs: dict name->term, added as (define-const) style equalities
     so a model can be read back by name."""
@@ -633,7 +720,8 @@ def script(assertions, dialect='cvc5', outputs=None, logic=None, produce_models=
         collect(t, decls, sorts)
     lines = []
     if dialect == 'cvc5':
-        lines.append('(set-logic ALL)')
+        lines.append('(set-logic HO_ALL)' if any(uses_op(t, {'set.filter'}) for t in allterms)
+                     else '(set-logic ALL)')
     if produce_models:
         lines.append('(set-option :produce-models true)')
     for s in sorted(sorts):
@@ -642,6 +730,28 @@ def script(assertions, dialect='cvc5', outputs=None, logic=None, produce_models=
         lines.append('(declare-fun %s (%s) %s)' % (
             qname(name), ' '.join(sort_smt(s, dialect) for s in argsorts),
             sort_smt(rs, dialect)))
+    if dialect == 'z3':
+        # cardinality: uninterpreted, with sound (incomplete) axioms per occurrence;
+        # a `sat` answer obtained with these is not trusted by the portfolio
+        cards = {}
+        for t in allterms:
+            _find_cards(t, cards)
+        seen_sorts = set()
+        for key, st in cards.items():
+            ss = sort_smt(st.sort, 'z3')
+            es = sort_smt(sort_args(st.sort)[1][0], 'z3')
+            if ss not in seen_sorts:
+                seen_sorts.add(ss)
+                lines.append('(declare-fun |card!%s| (%s) Int)' % (ss, ss))
+                lines.append('(declare-fun |wit!%s| (%s) %s)' % (ss, ss, es))
+            c = '(|card!%s| %s)' % (ss, to_smt(st, 'z3'))
+            w = '(|wit!%s| %s)' % (ss, to_smt(st, 'z3'))
+            S = to_smt(st, 'z3')
+            empty = '((as const %s) false)' % ss
+            lines.append('(assert (>= %s 0))' % c)
+            lines.append('(assert (= (= %s 0) (= %s %s)))' % (c, S, empty))
+            lines.append('(assert (= (= %s 1) (= %s (store %s %s true))))' % (c, S, empty, w))
+            lines.append('(assert (=> (>= %s 1) (select %s %s)))' % (c, S, w))
     for t in assertions:
         lines.append('(assert %s)' % to_smt(t, dialect))
     for name, t in (outputs or {}).items():
